@@ -15,6 +15,7 @@ mod nms_replay;
 mod r2_record;
 mod store_replay;
 mod track_replay;
+mod visvote_replay;
 mod tracker_replay;
 mod voting_replay;
 
@@ -40,6 +41,7 @@ fn main() {
         ("replay", "feature") => feature_replay::main(&opts),
         ("replay", "kalman") => kalman_replay::main(&opts),
         ("replay", "constraints") => constraints_replay::main(&opts),
+        ("replay", "visvote") => visvote_replay::main(&opts),
         ("replay", "voting") => voting_replay::main(&opts),
         (a, b) => {
             eprintln!("vh: unknown command {} {}", a, b);
